@@ -285,6 +285,18 @@ class Ctx:
                 self.violation(state["bucket"], state["case"], f"[history dependent: not reproduced on immediate re-run] {state['detail']}")
                 seen.add(state["bucket"])
                 continue
+            except Exception as e:
+                # an internal error of the generator library while it was shrinking a failure it had already found (seen with
+                # hypothesis 6.168: "ValueError: 32 is not in list" out of the text shrinker when a one_of() of two alphabets is
+                # involved): the recorded failing case stands, unshrunk
+                import traceback
+                frames = traceback.extract_tb(e.__traceback__)
+                in_lib = bool(frames) and (os.sep + "hypothesis" + os.sep) in frames[-1].filename
+                if state["case"] is None or not in_lib:
+                    raise
+                self.violation(state["bucket"], state["case"], f"[not minimised: the shrinker failed with {e!r}] {state['detail']}")
+                seen.add(state["bucket"])
+                continue
             break
 
 
